@@ -102,13 +102,15 @@ def case_strategy(draw, sub):
     if maybe(3):
         o["zero_cap"] = True
     r1, r2 = draw(scen.reads(ad1, ad2, paired, fastq=True, n_max=5, base=qbase))
-    if qbase == 64 and o.get("zero_cap"):
-        # make sure some characters are below the base so that zero-capping has something to do
+    if o.get("zero_cap") and (qbase == 64 or draw(st.booleans())):
+        # make sure some characters are below the base so that zero-capping has something to do (with base 33
+        # these are the characters below '!', which the FASTQ reader accepts)
+        low = ";=?5" if qbase == 64 else " \x1f"
         for recs in (r1, r2 or []):
             for rec in recs:
                 if rec[2]:
                     k = draw(st.integers(0, len(rec[2]) - 1))
-                    rec[2] = rec[2][:k] + draw(st.sampled_from(";=?5")) + rec[2][k + 1:]
+                    rec[2] = rec[2][:k] + draw(st.sampled_from(low)) + rec[2][k + 1:]
     sc = {"sub": sub, "paired": paired, "fastq": True, "r1": r1, "r2": r2, "ad1": ad1, "ad2": ad2, "glob": glob, "o": o}
     ngroups = len(scen.mod_tokens(sc)) + (2 if paired else 1)
     sc["perm"] = list(draw(st.permutations(list(range(ngroups)))))
